@@ -1,1 +1,146 @@
-//! placeholder (filled in for C14)
+//! SanitizerCoverage runtime: trace-equality monitor.
+//!
+//! This crate is never instrumented itself. While a recording window is open, every edge
+//! (`trace_pc_guard`) and every load/store address (`trace-loads`/`trace-stores`) of instrumented
+//! code is folded into rolling hashes and counters; an optional bounded log supports diagnosing
+//! the first divergence between two runs. Single-threaded by design: only the thread that runs
+//! the function under test executes instrumented code while the window is open.
+
+#![allow(static_mut_refs)]
+
+use std::sync::atomic::{AtomicBool, Ordering};
+
+static ACTIVE: AtomicBool = AtomicBool::new(false);
+static mut EDGE_HASH: u64 = 0;
+static mut EDGE_CNT: u64 = 0;
+static mut MEM_HASH: u64 = 0;
+static mut MEM_CNT: u64 = 0;
+static mut N_GUARDS: u32 = 0;
+static mut PCS_BEG: *const usize = std::ptr::null();
+static mut PCS_END: *const usize = std::ptr::null();
+static mut LOGGING: bool = false;
+static mut LOG: Vec<(u8, u64)> = Vec::new();
+static mut LOG_CAP: usize = 0;
+
+#[inline(always)]
+fn mix(h: u64, v: u64) -> u64 {
+    // splitmix-style avalanche of (h ^ v): order-sensitive rolling hash
+    let mut z = (h ^ v).wrapping_add(0x9E37_79B9_7F4A_7C15);
+    z = (z ^ (z >> 30)).wrapping_mul(0xBF58_476D_1CE4_E5B9);
+    z = (z ^ (z >> 27)).wrapping_mul(0x94D0_49BB_1331_11EB);
+    z ^ (z >> 31) ^ h.rotate_left(17)
+}
+
+#[derive(Debug, Clone, Copy, PartialEq, Eq, Hash)]
+pub struct Trace {
+    pub edge_hash: u64,
+    pub edge_count: u64,
+    pub mem_hash: u64,
+    pub mem_count: u64,
+}
+
+/// Number of instrumented edges linked into this binary (0 = not an instrumented build).
+pub fn guards() -> u32 { unsafe { N_GUARDS } }
+
+pub fn open(log_cap: usize) {
+    unsafe {
+        EDGE_HASH = 0;
+        EDGE_CNT = 0;
+        MEM_HASH = 0;
+        MEM_CNT = 0;
+        LOGGING = log_cap > 0;
+        LOG_CAP = log_cap;
+        if LOGGING {
+            LOG.clear();
+            LOG.reserve(log_cap);
+        }
+    }
+    ACTIVE.store(true, Ordering::SeqCst);
+}
+
+pub fn close() -> Trace {
+    ACTIVE.store(false, Ordering::SeqCst);
+    unsafe { Trace { edge_hash: EDGE_HASH, edge_count: EDGE_CNT, mem_hash: MEM_HASH, mem_count: MEM_CNT } }
+}
+
+/// The bounded event log of the last window: (kind, value); kind 0 = edge (guard id),
+/// 1..=5 loads of 1/2/4/8/16 bytes, 6..=10 stores.
+pub fn take_log() -> Vec<(u8, u64)> { unsafe { std::mem::take(&mut LOG) } }
+
+/// PC of guard id (1-based) from the PC table, if present.
+pub fn pc_of_guard(id: u32) -> Option<usize> {
+    unsafe {
+        if PCS_BEG.is_null() || id == 0 {
+            return None;
+        }
+        let idx = (id as usize - 1) * 2;
+        let p = PCS_BEG.add(idx);
+        if p >= PCS_END {
+            return None;
+        }
+        Some(*p)
+    }
+}
+
+#[inline(always)]
+unsafe fn ev(kind: u8, v: u64) {
+    if kind == 0 {
+        EDGE_HASH = mix(EDGE_HASH, v);
+        EDGE_CNT += 1;
+    } else {
+        MEM_HASH = mix(MEM_HASH, v ^ ((kind as u64) << 56));
+        MEM_CNT += 1;
+    }
+    if LOGGING && LOG.len() < LOG_CAP {
+        LOG.push((kind, v));
+    }
+}
+
+#[no_mangle]
+pub unsafe extern "C" fn __sanitizer_cov_trace_pc_guard_init(start: *mut u32, stop: *mut u32) {
+    if start == stop || *start != 0 {
+        return;
+    }
+    let mut p = start;
+    while p < stop {
+        N_GUARDS += 1;
+        *p = N_GUARDS;
+        p = p.add(1);
+    }
+}
+
+#[no_mangle]
+pub unsafe extern "C" fn __sanitizer_cov_pcs_init(beg: *const usize, end: *const usize) {
+    if PCS_BEG.is_null() {
+        PCS_BEG = beg;
+        PCS_END = end;
+    }
+}
+
+#[no_mangle]
+pub unsafe extern "C" fn __sanitizer_cov_trace_pc_guard(guard: *mut u32) {
+    if ACTIVE.load(Ordering::Relaxed) {
+        ev(0, u64::from(*guard));
+    }
+}
+
+macro_rules! mem_cb {
+    ($name:ident, $kind:expr) => {
+        #[no_mangle]
+        pub unsafe extern "C" fn $name(addr: *const u8) {
+            if ACTIVE.load(Ordering::Relaxed) {
+                ev($kind, addr as u64);
+            }
+        }
+    };
+}
+mem_cb!(__sanitizer_cov_load1, 1);
+mem_cb!(__sanitizer_cov_load2, 2);
+mem_cb!(__sanitizer_cov_load4, 3);
+mem_cb!(__sanitizer_cov_load8, 4);
+mem_cb!(__sanitizer_cov_load16, 5);
+mem_cb!(__sanitizer_cov_store1, 6);
+mem_cb!(__sanitizer_cov_store2, 7);
+mem_cb!(__sanitizer_cov_store4, 8);
+mem_cb!(__sanitizer_cov_store8, 9);
+mem_cb!(__sanitizer_cov_store16, 10);
